@@ -1,7 +1,14 @@
 use std::ptr::NonNull;
+#[cfg(not(folo_verif_loom))]
 use std::sync::atomic::{AtomicUsize, Ordering};
+#[cfg(not(folo_verif_loom))]
 use std::sync::{Arc, Mutex};
 use std::task::{RawWaker, RawWakerVTable, Waker};
+
+#[cfg(folo_verif_loom)]
+use loom::sync::atomic::{AtomicUsize, Ordering};
+#[cfg(folo_verif_loom)]
+use loom::sync::{Arc, Mutex};
 
 use plurality::Pool;
 
@@ -33,6 +40,12 @@ pub(crate) struct WakerMeta {
     // per-slot iteration. Initialized to Waker::noop() and updated in poll() when the
     // executor provides a real waker.
     shared_parent: Arc<Mutex<Waker>>,
+
+    // Verification-only shadow cell (`cfg(folo_verif_loom)`): read at every access made through
+    // a slot or waker reference and written where the storage is released, so that loom reports
+    // a release that is not ordered after every other access.
+    #[cfg(folo_verif_loom)]
+    shadow: loom::cell::UnsafeCell<()>,
 }
 
 // Thread-local pool for waker metadata. Pooled values have stable addresses, which the
@@ -79,6 +92,8 @@ pub(crate) fn create_waker_meta(shared_parent: &Arc<Mutex<Waker>>) -> MetaPtr {
             ref_count: AtomicUsize::new(1),
             activated: AtomicUsize::new(1),
             shared_parent: Arc::clone(shared_parent),
+            #[cfg(folo_verif_loom)]
+            shadow: loom::cell::UnsafeCell::new(()),
         });
 
         MetaPtr(plurality::Box::into_raw(handle).as_ptr())
@@ -89,6 +104,8 @@ pub(crate) fn create_waker_meta(shared_parent: &Arc<Mutex<Waker>>) -> MetaPtr {
 pub(crate) fn make_waker(meta: MetaPtr) -> Waker {
     // SAFETY: The metadata is valid (refcount > 0 guarantees it has not been removed).
     let meta_ref = unsafe { &*meta.0 };
+    #[cfg(folo_verif_loom)]
+    meta_ref.shadow.with(|_| ());
     meta_ref.ref_count.fetch_add(1, Ordering::Relaxed);
 
     // SAFETY: The vtable functions correctly match the data pointer layout.
@@ -105,6 +122,8 @@ pub(crate) fn make_waker(meta: MetaPtr) -> Waker {
 pub(crate) fn check_activated(meta: MetaPtr) -> bool {
     // SAFETY: The metadata is valid (refcount > 0 guarantees it has not been removed).
     let meta_ref = unsafe { &*meta.0 };
+    #[cfg(folo_verif_loom)]
+    meta_ref.shadow.with(|_| ());
     meta_ref.activated.swap(0, Ordering::AcqRel) != 0
 }
 
@@ -119,11 +138,18 @@ pub(crate) fn check_activated(meta: MetaPtr) -> bool {
 #[cfg_attr(test, mutants::skip)]
 pub(crate) fn release_ref(meta: MetaPtr) {
     // SAFETY: The metadata is valid (refcount > 0 guarantees it has not been removed).
+    #[cfg(folo_verif_loom)]
+    unsafe { &*meta.0 }.shadow.with(|_| ());
+    // SAFETY: The metadata is valid (refcount > 0 guarantees it has not been removed).
     let previous = unsafe { &*meta.0 }.ref_count.fetch_sub(1, Ordering::AcqRel);
 
     if previous == 1 {
         let ptr = NonNull::new(meta.0.cast_mut())
             .expect("metadata pointers come from Box::into_raw, which never yields null");
+
+        // SAFETY: The refcount reached zero, so no other reference to the metadata remains.
+        #[cfg(folo_verif_loom)]
+        unsafe { &*meta.0 }.shadow.with_mut(|_| ());
 
         // SAFETY: The refcount reached zero, so no other reference to the metadata remains
         // and this is the single `from_raw` call matching the `Box::into_raw` that
@@ -139,6 +165,8 @@ unsafe fn clone_raw_waker(data: *const ()) -> RawWaker {
     // SAFETY: The data pointer is a valid WakerMeta pointer (guaranteed by
     // construction in make_waker and create_waker_meta).
     let meta = unsafe { &*(data as *const WakerMeta) };
+    #[cfg(folo_verif_loom)]
+    meta.shadow.with(|_| ());
     meta.ref_count.fetch_add(1, Ordering::Relaxed);
     RawWaker::new(data, &WAKER_VTABLE)
 }
@@ -159,6 +187,8 @@ unsafe fn wake_raw_waker(data: *const ()) {
 unsafe fn wake_by_ref_raw_waker(data: *const ()) {
     // SAFETY: The data pointer is a valid WakerMeta pointer.
     let meta = unsafe { &*(data as *const WakerMeta) };
+    #[cfg(folo_verif_loom)]
+    meta.shadow.with(|_| ());
 
     // Only wake the parent if we are the first to set the activation flag.
     // If it was already set, the parent was already woken by a prior activation.
@@ -171,6 +201,8 @@ unsafe fn wake_by_ref_raw_waker(data: *const ()) {
             .lock()
             .expect("we never panic while holding this lock")
             .clone();
+        #[cfg(folo_verif_loom)]
+        meta.shadow.with(|_| ());
 
         parent.wake_by_ref();
     }
@@ -178,6 +210,25 @@ unsafe fn wake_by_ref_raw_waker(data: *const ()) {
 
 unsafe fn drop_raw_waker(data: *const ()) {
     release_ref(MetaPtr(data as *const WakerMeta));
+}
+
+/// Verification-only read-only probe (`cfg(folo_verif)`), used by the model-checking harnesses
+/// in `/verif`: number of live waker metadata entries in the calling thread's pool.
+#[cfg(folo_verif)]
+pub(crate) fn verif_pool_len() -> u64 {
+    WAKER_META_POOL.with(Pool::len)
+}
+
+/// Verification-only read-only probe (`cfg(folo_verif)`): `(ref_count, activated)` of a live
+/// metadata entry.
+#[cfg(folo_verif)]
+pub(crate) fn verif_meta_state(meta: MetaPtr) -> (usize, usize) {
+    // SAFETY: The metadata is valid (refcount > 0 guarantees it has not been removed).
+    let meta_ref = unsafe { &*meta.0 };
+    (
+        meta_ref.ref_count.load(Ordering::Relaxed),
+        meta_ref.activated.load(Ordering::Relaxed),
+    )
 }
 
 #[cfg(test)]
